@@ -1,13 +1,6 @@
 //! E1: virtual-transport simulator around the real `Connection` and `CipherStream`.
 pub use vsim::{alloc, sim, util};
-use vsim::{c01, c02};
-mod c03;
-mod c04;
-mod c05;
-mod c06;
-mod c07;
-use vsim::c08;
-mod c10;
+use vsim::{c01, c02, c03, c04, c05, c06, c07, c08, c10};
 
 #[global_allocator]
 static GLOBAL: alloc::Counting = alloc::Counting;
